@@ -111,11 +111,17 @@ CHECKS = {
              "text as suffix; zero padding puts the sign first; doubled braces unescape to the original text; text without "
              "% is passed verbatim by the printf machinery. Tie: ~450 boundary integers (every power of two and ten +-1) x "
              "{println, {v}, :x :X :b :Nd :0Nd, %d %lld %Nd %0Nd %Nlld} x widths, and random ASCII/UTF-8 text, braces, %% %s "
-             "%c, surplus printf arguments, print without newline — model vs interpreter.",
+             "%c, surplus printf arguments, print without newline — model vs interpreter. Theorems (CbProps/C16Fixed.lean, 8) on "
+             "CbModel/Fixed.lean, :.Nf as exact rational arithmetic on the value of the double: the printed numeral is a nearest "
+             "one with N fraction digits (within half a unit of the last digit), exact values are printed exactly, ties go to "
+             "the even neighbour, non-ties to the strictly nearer one, rounding is monotone, exactly N fraction digits are "
+             "printed and the text reads back as the rounded value. Tie: {x:.Nf}, N = 0..12, on doubles from a fixed list "
+             "(binary ties, decimal pseudo-ties, both signs) and random dyadic / decimal literals vs the model.",
         note="Calibrated to the implementation where the property is silent: println writes arguments one at a time; a "
              "sole literal is printed raw; surplus printf arguments are appended space-separated. Not generated: double "
              "quotes/backslashes in literals (lexer has no escaped quote), too few printf arguments, the `-` flag, %x/%o/%u, "
-             "floating point. Listed findings: {v:05d} of a negative value, ?: inside interpolation.",
+             "float / quad variables, width combined with precision, :e. The exact value of the double a literal denotes is "
+             "supplied by the harness (Python float = correctly rounded strtod).",
         technique="Lean 4 proof (round-trip and padding laws by induction on digit lists) + exhaustive boundary-integer x "
                   "format table run end-to-end",
         ref="DESIGN.md §6 C16"),
@@ -240,7 +246,15 @@ CHECKS = {
              "child-node field of struct ASTNode (ast.h). Tie (metamorphic): S1 random core programs whose functions are made "
              "generic mechanically vs the original program (= hand-specialised twin) on the implementation, the twin also vs "
              "CbRef; S2 14 generic function templates + generic structs instantiated at random tuples over {tiny, short, int, "
-             "long, bool, char, string, struct}, swapped tuples, repeated uses, shuffled orders vs the monomorphised twin.",
+             "long, bool, char, string, struct}, swapped tuples, repeated uses, shuffled orders vs the monomorphised twin; "
+             "S3 generic aggregates (interface implemented for a generic struct, generic constructor/destructor, generic enum + "
+             "match, generic structs / enums used at the type parameters inside generic functions) vs the hand-specialised twin. "
+             "Theorems (CbProps/C11Subst.lean, 11) on CbModel/TypeSubst.lean, the function-by-function model of "
+             "substitute_type_string / substitute_generic_type_name / substitute_normalized_generic_type: the type names of an "
+             "instantiated body are the generic body's with exactly the type parameters replaced — token-wise on declarators "
+             "(whole identifiers only; qualifiers, *, &, dimensions kept; `_N`, `Node_T` kept; `Option_T` -> `Option_int`), at "
+             "every depth of Box<Pair<A, B>> trees, for all strings / maps. Tie S4: the C++ function itself (hook H5) vs the "
+             "model on random declarators, type trees, damaged names and random strings.",
         note="No theorem states 'generic program = monomorphised program' for a semantics of generic programs (CbRef has no "
              "generics; the statement would be definitional): that part of the property is carried by the metamorphic tie. "
              "The cache is currently disabled in call_impl.cpp (every call instantiates afresh); the theorems show that "
